@@ -32,7 +32,7 @@ inductive Steps : St S M → St S M → Prop
   | refl {st : St S M} : Steps st st
   | tail {a b c : St S M} : Steps a b → Step G att b c → Steps a c
 
-theorem step_ok (halt : Alternating G) (hatt : att = .white ∨ att = .black) (hsb : SmallBranching G)
+theorem step_ok (halt : Alternating G) (hatt : att = .white ∨ att = .black) (hsb : SmallFrom G root)
     {st st' : St S M} (hz : ZipOK G att root st) (h : Step G att st st') : ZipOK G att root st' := by
   cases h with
   | descend hx hc hd => exact (descend_ok G att root _ _ _ _ _ hz hx hc hd).1
@@ -42,7 +42,7 @@ theorem step_ok (halt : Alternating G) (hatt : att = .white ∨ att = .black) (h
   | cutBack hv => exact pn2_finish_ok G att root _ _ hz hv
   | config cfg stats an => exact (ZipOK_congr G att root rfl rfl rfl rfl).mp hz
 
-theorem steps_ok (halt : Alternating G) (hatt : att = .white ∨ att = .black) (hsb : SmallBranching G)
+theorem steps_ok (halt : Alternating G) (hatt : att = .white ∨ att = .black) (hsb : SmallFrom G root)
     {st st' : St S M} (hz : ZipOK G att root st) (h : Steps G att st st') : ZipOK G att root st' := by
   induction h with
   | refl => exact hz
